@@ -321,6 +321,10 @@ func (ev *Ev) specCall(x *ast.CallExpr) Value {
 		key := u.objKey(ev, x.Args[0])
 		u.famSort("G:wg", arraySort(SRef, SInt))
 		return intV(app("select", u.fam(ev.st, "G:wg", arraySort(SRef, SInt)), key))
+	case "wgWaits":
+		key := u.objKey(ev, x.Args[0])
+		u.famSort("G:wgw", arraySort(SRef, SInt))
+		return intV(app("select", u.fam(ev.st, "G:wgw", arraySort(SRef, SInt)), key))
 	case "strlen":
 		a := ev.expr(x.Args[0])
 		return intV(app("strlen", a.T))
